@@ -359,7 +359,7 @@ Proof.
   destruct (fine_ret (base fw) t) as [[p' f]|] eqn:Hfr; [eapply FInv_ret; eauto|now apply FInv_coarse].
 Qed.
 
-Lemma FInv_init scripts started s0 v0 : FInv (finit scripts started s0 v0).
+Lemma FInv_init scripts results started s0 v0 : FInv (finit scripts results started s0 v0).
 Proof.
   unfold FInv, finit. cbn [base]. split; [|split].
   - intros t. cbn. exact I.
@@ -371,7 +371,7 @@ Qed.
 Lemma frun_all_inv (P : fworld -> Prop) : (forall fw mv, P fw -> P (fstep fw mv)) -> forall sched fw, P fw -> P (frun_all fw sched).
 Proof. intros Hs sched. unfold frun_all. induction sched as [|mv sched IH]; intros fw Hfw; cbn [fold_left]; auto. Qed.
 
-Lemma FInv_freach scripts started s0 v0 fsched : FInv (freach scripts started s0 v0 fsched).
+Lemma FInv_freach scripts results started s0 v0 fsched : FInv (freach scripts results started s0 v0 fsched).
 Proof. unfold freach. apply frun_all_inv; [intros; now apply FInv_fstep|apply FInv_init]. Qed.
 
 (* foreign_unlock is sticky *)
@@ -393,9 +393,9 @@ Qed.
 
 (* ---- statements ---- *)
 Section FineStatements.
-Variables (scripts : tid -> list libcall) (started : tid -> bool) (s0 : bool) (v0 : Z) (fsched : list move).
-Let fw := freach scripts started s0 v0 fsched.
-Let HF : FInv fw := FInv_freach scripts started s0 v0 fsched.
+Variables (scripts : tid -> list libcall) (results : tid -> Z) (started : tid -> bool) (s0 : bool) (v0 : Z) (fsched : list move).
+Let fw := freach scripts results started s0 v0 fsched.
+Let HF : FInv fw := FInv_freach scripts results started s0 v0 fsched.
 
 Lemma fine_signal_accesses_under_mutex_l t : fclass_of (fp fw t) = KSig ->
   m_owner (mtx (ps (base fw)) SM) = Some t /\ st (ps (base fw)) t = TRun.
